@@ -193,7 +193,12 @@ Judge == IF IOEnv.PASS # "shapesj" THEN TRUE ELSE
 Senders == {"A", "B", "D"}
 \* ... and long histories: a re-sent message is recognised however many other messages were received in between
 Long(n, rep) == [i \in 1..(n + Len(rep)) |-> IF i <= n THEN <<"A", i - 1>> ELSE <<"A", rep[i - n]>>]
+\* ... and late first arrivals: the first frame of message k was lost, its re-send arrives after n newer messages of the same
+\* sender (and once more after that): it is a NEW message however old its number looks (a window of recent numbers is not enough)
+Late(n, k) == LET rest == SelectSeq([i \in 1..(n + 1) |-> i - 1], LAMBDA x : x # k)
+              IN [i \in 1..(n + 2) |-> IF i <= n THEN <<"A", rest[i]>> ELSE <<"A", k>>]
 Deliveries == UNION {[1..n -> Senders \X (0..1)] : n \in 0..4} \cup {Long(700, <<0, 350, 699, 0>>), Long(1100, <<0>>)}
+              \cup {Late(20, 0), Late(70, 0), Late(300, 7), Late(1100, 0)}
 ExpectedDelivered(seq) == SelectSeq([i \in 1..Len(seq) |-> IF \E j \in 1..(i - 1) : seq[j] = seq[i] THEN <<>> ELSE seq[i]],
                                     LAMBDA e : e # <<>>)
 GenerateSenders == IF IOEnv.PASS # "senders" THEN TRUE ELSE JsonSerialize(IOEnv.CASES_FILE, SetToSeq(Deliveries))
